@@ -69,6 +69,15 @@ Fixpoint rd (s : str) (st : rst) (f : str) (row : list str) (acc : list (list st
 
 Definition rfc_read (s : str) : option (list (list str)) := rd s RS [] [] [].
 
+(** the writer of fixes/C31-csv-rfc4180-reader.patch: escape_csv_value extended by CR, LF record ends, and a
+    record consisting of one empty field written as two double quotes (readers skip blank lines) *)
+Definition fixed_row (r : list str) : str :=
+  match r with
+  | [[]] => [DQ; DQ; LF]
+  | _ => join [COMMA] (map rfc_field r) ++ [LF]
+  end.
+Definition fixed_write (rows : list (list str)) : str := flat_map fixed_row rows.
+
 (** ------------------------------------------------------------------------------------------------
     statement scanner *)
 
